@@ -71,13 +71,31 @@ class AfterBlocks(Walker):
 
 
 def donors_loop_range(fn):
-    """range expression text of the loop that registers donors"""
+    """canonical description of the node sequence the donors-registering loop visits: 'ALL' for all
+    nodes in ascending order (range-for over nodes_indices() or an index loop 0 .. size()), else the
+    range expression text"""
+    from ..sir import resolve_alias
+
+    def registers(body):
+        for m in walk(body):
+            if m.get("k") in ("binop", "call") and "donors(" in pp(m) and "donors_count(" in pp(m) \
+                    and (m.get("op") == "="):
+                return True
+        return False
     for n in walk(fn.body):
-        if n.get("k") == "rangefor":
-            for m in walk(n.get("body")):
-                if m.get("k") in ("binop", "call") and "donors(" in pp(m) and "donors_count(" in pp(m) \
-                        and (m.get("op") == "="):
-                    return pp(n["range"])
+        if n.get("k") == "rangefor" and registers(n.get("body")):
+            r = pp(strip(n["range"]))
+            return "ALL" if r.endswith("nodes_indices()") else pp(n["range"])
+        if n.get("k") == "for" and n.get("c") is not None and registers(n.get("body")):
+            c = strip(n["c"])
+            ini = n.get("init")
+            start0 = ini is not None and any(("init" in x and x.get("init") is not None and
+                                              strip(x["init"]).get("cv") == 0) for x in walk(ini))
+            up = n.get("inc") is not None and "++" in pp(n["inc"])
+            if c.get("k") == "binop" and c["op"] == "<" and start0 and up and \
+                    pp(resolve_alias(fn, c["rhs"])).endswith("size()"):
+                return "ALL"
+            return "for(%s; %s; %s)" % (pp(ini) if ini else "", pp(c), pp(n["inc"]) if n.get("inc") else "")
     return None
 
 
@@ -198,6 +216,15 @@ def run(db, chk):
         if lam is None or sfn is None:
             raise AnalysisBroken("C10-X3: sequential / parallel bodies not found for %s" % fn.unit.name)
 
+        # local reference aliases of graph tables in the enclosing functions (captured by the callable)
+        alias = {}
+        for host in (fn, sfn):
+            for n in walk(host.body):
+                if "d" in n and "k" not in n and n.get("init") is not None:
+                    ini = strip(n["init"])
+                    if ini.get("k") == "member" and ini.get("mk") == "field":
+                        alias[n.get("n")] = ini.get("n")
+
         def table_writes(f, drop):
             s = eff.summary(f)
             out = set()
@@ -208,8 +235,7 @@ def run(db, chk):
                 name = fs[-1] if fs else (p[0][2] if p[0][0] in ("cap", "local") else "?")
                 if "grid" in path_str(obj_key(p)) or "m_grid" in fs:
                     continue
-                name = {"receivers": "m_receivers", "dist2receivers": "m_receivers_distance",
-                        "donors": "m_donors", "donors_count": "m_donors_count"}.get(name, name)
+                name = alias.get(name, name)
                 if name in drop:
                     continue
                 fi = first_index(p)
